@@ -1,4 +1,5 @@
 import SdModel.Lemmas.UArr
+import SdModel.Lemmas.UMap
 import SdModel.Gen.Params
 
 /-!
@@ -133,5 +134,78 @@ theorem no_replace_unless_shrinks (prev cur : List α) (h : distinct prev ≤ di
   intro hh
   have := (replace_iff prev cur).mp ⟨r, hh⟩
   omega
+
+
+/-! ### flat map-like (maps with unique keys, both modes) -/
+section MapLike
+open UMap
+variable {κ ν : Type} [DecidableEq κ] [DecidableEq ν]
+
+/-- what a change list may say about one key, given the key's state on both sides:
+(total removed, total inserted, first inserted value) -/
+def keySpec (p c : Option ν) : Nat × Nat × Option ν :=
+  match p, c with
+  | none, none => (0, 0, none)
+  | none, some v => (0, 1, some v)
+  | some _, none => (1, 0, none)
+  | some pv, some v => if pv = v then (0, 0, none) else (1, 1, some v)
+
+/-- a change list says, per key, exactly what changed: nothing for an identical pair, one insertion of the
+new pair for an added key, one removal for a removed key, remove-old plus insert-new for a changed value;
+and every entry has a positive count, so no key is mentioned more often than these totals -/
+theorem map_modify (prev cur : List (κ × ν)) (hp : UniqueKeys prev) (hc : UniqueKeys cur) (b : Bool)
+    (es : List (Change κ ν)) (h : UMap.hashcmp prev cur b = some (.modify es)) :
+    (∀ k, (remTot es k, insTot es k, insVal es k) = keySpec (plookup prev k) (plookup cur k)) ∧
+    (∀ e ∈ es, 0 < cnt e) := by
+  obtain ⟨p1, p2, p3, p4⟩ := coll_unique b prev hp
+  obtain ⟨c1, c2, c3, c4⟩ := coll_unique b cur hc
+  simp only [UMap.hashcmp, UMap.hashcmpA_eq] at h
+  split at h
+  · cases h
+  · split at h
+    · cases h
+    · simp only [Option.some.injEq, UMap.Diff.modify.injEq] at h
+      subst h
+      obtain ⟨l1, l2, l3, l4, _, l6⟩ := loop1_spec (coll b cur) (coll b prev) c1 p1 c2 p2
+      obtain ⟨r1, r2, r3, r4, _⟩ := UMap.rest_spec _ l2 l3
+      refine ⟨?_, ?_⟩
+      · intro k
+        have ll := l1 k
+        have s1 := congrArg (·.1) ll
+        have s2 := congrArg (·.2.1) ll
+        have s3 := congrArg (·.2.2) ll
+        simp only [] at s1 s2 s3
+        simp only [entriesOf, remTot_append, insTot_append, insVal_append, r1, r2, r3, s1, s2, s3, l4 k, p3, c3]
+        cases hpk : plookup prev k <;> cases hck : plookup cur k <;> simp [loopSpec, headSpec, keySpec]
+        · rename_i pv v
+          by_cases e : pv = v <;> simp [e]
+      · intro e he
+        rcases List.mem_append.mp he with he | he
+        · exact l6 e he
+        · exact r4 e he
+
+/-- a full replacement carries exactly the new map -/
+theorem map_replace (prev cur : List (κ × ν)) (hc : UniqueKeys cur) (b : Bool) (r : List (κ × ν))
+    (h : UMap.hashcmp prev cur b = some (.replace r)) : UniqueKeys r ∧ ∀ k, plookup r k = plookup cur k := by
+  obtain ⟨c1, c2, c3, c4⟩ := coll_unique b cur hc
+  simp only [UMap.hashcmp, UMap.hashcmpA_eq] at h
+  split at h
+  · simp only [Option.some.injEq, UMap.Diff.replace.injEq] at h
+    subst h
+    exact plookup_eq_of_mget cur _ c1 c3
+  · split at h <;> cases h
+
+/-- if the new map has at least as many keys as the old one, the diff is a change list -/
+theorem map_no_replace_unless_shrinks (prev cur : List (κ × ν)) (hp : UniqueKeys prev) (hc : UniqueKeys cur) (b : Bool)
+    (hlen : prev.length ≤ cur.length) (r : List (κ × ν)) : UMap.hashcmp prev cur b ≠ some (.replace r) := by
+  obtain ⟨_, _, _, p4⟩ := coll_unique b prev hp
+  obtain ⟨_, _, _, c4⟩ := coll_unique b cur hc
+  intro h
+  simp only [UMap.hashcmp, UMap.hashcmpA_eq] at h
+  split at h
+  · rename_i hlt; rw [p4, c4] at hlt; omega
+  · split at h <;> cases h
+
+end MapLike
 
 end C20
